@@ -138,9 +138,87 @@ fn same_key_across_update(run: &Run) {
     run.require_label("same-key-different-assignment-across-update", 100);
 }
 
+/// "pressing a key appends exactly the string the layout file assigns to that key" - also when the composition is
+/// not empty: every ordered pair of assigned keys (both planes, number pad on and off).  The always-on rewriting
+/// rules (C12: hasanta + sign, double hasanta, hasanta + length mark, zo-fola after ra) are left to C12: a pair is
+/// judged here exactly when the independent rule table says "plain appending" for it.
+fn key_pairs(run: &Run) {
+    use crate::model::{compose_step, FixedOpts};
+    let lays: HashMap<Layout, HashMap<String, String>> = [Layout::Probhat, Layout::Synthetic, Layout::Exotic].into_iter().map(|l| (l, load_layout_json(l))).collect();
+    let mut items: Vec<(Layout, bool, usize)> = vec![];
+    for l in [Layout::Probhat, Layout::Synthetic, Layout::Exotic] {
+        for numpad in [false, true] {
+            for chunk in 0..8usize {
+                items.push((l, numpad, chunk));
+            }
+        }
+    }
+    run.exhaustive(
+        "every-ordered-pair-of-assigned-keys",
+        &items,
+        |_| Sandbox::new(),
+        |&(layout, numpad, chunk), st, sb| {
+            let mut opts = Opts::parse("D");
+            opts.layout = layout;
+            opts.numpad = numpad;
+            let ctx = Ctx::new(opts, sb).map_err(|p| Failure::new(panic_kind(&p), p.to_string(), json!({})))?;
+            let lay = &lays[&layout];
+            let mut assigned: Vec<(u16, u8, String)> = vec![];
+            for k in &keys().keys {
+                for m in [0u8, 2] {
+                    if let Some(v) = layout_value(lay, k, m & 2 != 0, numpad) {
+                        if !(k.numpad && m == 2) {
+                            assigned.push((k.code, m, v));
+                        }
+                    }
+                }
+            }
+            let off = FixedOpts { vowel: false, chandra: false, kar: false, reph: false };
+            for (i, (c1, m1, v1)) in assigned.iter().enumerate() {
+                if i % 8 != chunk {
+                    continue;
+                }
+                for (c2, m2, v2) in &assigned {
+                    let case = || json!({"key_pair": {"layout": format!("{layout:?}"), "numpad": numpad, "first": [c1, m1], "second": [c2, m2]}});
+                    let pf = |p: crate::driver::PanicInfo| Failure::new(panic_kind(&p), p.to_string(), case());
+                    let (rule, want) = compose_step(v1, v2, off);
+                    let plain = format!("{v1}{v2}");
+                    if want.as_deref() != Some(plain.as_str()) {
+                        st.skip("pair-rewritten-by-an-always-on-rule-or-open-class (C12)");
+                        let _ = rule;
+                        continue;
+                    }
+                    ctx.finish().map_err(pf)?;
+                    let a = ctx.key(*c1, *m1, 0).map_err(pf)?;
+                    if a.text != *v1 {
+                        continue; // the single-key sweep reports that
+                    }
+                    let b = ctx.key(*c2, *m2, 0).map_err(pf)?;
+                    st.evals(1);
+                    if b.text != plain || b.pre[0].as_deref() != Ok(plain.as_str()) || !b.lonely {
+                        return Err(Failure::new(
+                            "wrong-text-after-another-key",
+                            format!("{layout:?} numpad={numpad}: after {v1:?} the key with the assignment {v2:?} gives {:?}, the layout file says {plain:?}", b.text),
+                            case(),
+                        ));
+                    }
+                    st.label("ordered-key-pairs-judged");
+                    if i % 8 == chunk && (c2 % 16 == 0) {
+                        st.nontrivial(hash_of(&(layout, numpad, c1, m1, c2, m2)), || json!({"layout": format!("{layout:?}"), "numpad": numpad, "first": v1, "second": v2}));
+                    }
+                }
+            }
+            ctx.finish().map_err(|p| Failure::new(panic_kind(&p), p.to_string(), json!({})))?;
+            Ok(())
+        },
+    );
+    run.require_label("ordered-key-pairs-judged", 50000);
+}
+
 pub fn run(run: &Run) {
     after_layout_switch(run);
     same_key_across_update(run);
+    key_pairs(run);
     let mods = modifiers(run.tier);
     let mut items = vec![];
     for layout in [Layout::Probhat, Layout::Synthetic, Layout::Exotic] {
@@ -242,6 +320,32 @@ fn after_layout_switch(run: &Run) {
 }
 
 pub fn replay(_run: &Run, case: &Value) -> Result<(), Failure> {
+    if let Some(kp) = case.get("key_pair") {
+        let by_name = |n: Option<&str>| match n {
+            Some("Synthetic") => Layout::Synthetic,
+            Some("Exotic") => Layout::Exotic,
+            _ => Layout::Probhat,
+        };
+        let layout = by_name(kp["layout"].as_str());
+        let numpad = kp["numpad"].as_bool().unwrap_or(false);
+        let g = |v: &Value, i: usize| v[i].as_u64().unwrap_or(0);
+        let (c1, m1, c2, m2) = (g(&kp["first"], 0) as u16, g(&kp["first"], 1) as u8, g(&kp["second"], 0) as u16, g(&kp["second"], 1) as u8);
+        let lay = load_layout_json(layout);
+        let val = |c: u16, m: u8| keys().by_code(c).and_then(|k| layout_value(&lay, k, m & 2 != 0, numpad)).unwrap_or_default();
+        let plain = format!("{}{}", val(c1, m1), val(c2, m2));
+        let sb = Sandbox::new();
+        let mut opts = Opts::parse("D");
+        opts.layout = layout;
+        opts.numpad = numpad;
+        let pf = |p: crate::driver::PanicInfo| Failure::new(panic_kind(&p), p.to_string(), case.clone());
+        let ctx = Ctx::new(opts, &sb).map_err(pf)?;
+        ctx.key(c1, m1, 0).map_err(pf)?;
+        let b = ctx.key(c2, m2, 0).map_err(pf)?;
+        if b.text != plain {
+            return Err(Failure::new("wrong-text-after-another-key", format!("got {:?}, the layout file says {plain:?}", b.text), case.clone()));
+        }
+        return Ok(());
+    }
     if let Some(sk) = case.get("same_key_across_update") {
         let (o1, o2) = (Opts::parse(sk["from"].as_str().unwrap_or_default()), Opts::parse(sk["to"].as_str().unwrap_or_default()));
         let (code, m) = (sk["code"].as_u64().unwrap_or(0) as u16, sk["modifier"].as_u64().unwrap_or(0) as u8);
